@@ -43,6 +43,7 @@ type Server struct {
 	userCommandHandler   UserCommandHandler
 	commandExecutors     Executors
 	commandMutex         sync.Mutex
+	acceptLoops          sync.WaitGroup
 }
 
 // NewServer returns a new server instance.
@@ -61,6 +62,7 @@ func NewServer() *Server {
 		userCommandHandler:   nil,
 		commandExecutors:     Executors{},
 		commandMutex:         sync.Mutex{},
+		acceptLoops:          sync.WaitGroup{},
 	}
 	server.SetPort(DefaultPort)
 	server.registerCoreExecutors()
@@ -110,14 +112,14 @@ func (server *Server) Start() error {
 	}
 	verifPoint("start.opened")
 
-	epoch := server.ConnManager.currentEpoch()
-
 	if server.IsPortEnabled() {
-		go server.serve(server.portListener, epoch)
+		server.acceptLoops.Add(1)
+		go server.serve(server.portListener)
 	}
 
 	if server.IsTLSPortEnabled() {
-		go server.tlsServe(server.tlsPortListener, server.tlsConfig, epoch)
+		server.acceptLoops.Add(1)
+		go server.tlsServe(server.tlsPortListener, server.tlsConfig)
 	}
 
 	return nil
@@ -125,12 +127,14 @@ func (server *Server) Start() error {
 
 // Stop stops the server.
 func (server *Server) Stop() error {
-	// The listeners are closed first, so that no connection is accepted
-	// while the connections are closed.
+	// The listeners are closed first and the accept loops have ended before
+	// the connections are closed, so that every accepted connection is
+	// registered by then and none survives Stop.
 	if err := server.close(); err != nil {
 		return err
 	}
 	verifPoint("stop.mid")
+	server.acceptLoops.Wait()
 
 	if err := server.ConnManager.Stop(); err != nil {
 		return err
@@ -215,7 +219,8 @@ func (server *Server) close() error {
 }
 
 // serve handles client connections.
-func (server *Server) serve(l net.Listener, epoch int) error {
+func (server *Server) serve(l net.Listener) error {
+	defer server.acceptLoops.Done()
 	// The accept loop owns the listener it was started with: when it ends it
 	// must not close the listeners a later Start has opened.
 	defer l.Close()
@@ -228,12 +233,13 @@ func (server *Server) serve(l net.Listener, epoch int) error {
 			return err
 		}
 
-		server.accept(conn, epoch)
+		server.accept(conn)
 	}
 }
 
 // tlsServe handles client connections with TLS.
-func (server *Server) tlsServe(l net.Listener, tlsConfig *tls.Config, epoch int) error {
+func (server *Server) tlsServe(l net.Listener, tlsConfig *tls.Config) error {
+	defer server.acceptLoops.Done()
 	defer l.Close()
 	verifPoint("tlsServe.enter")
 
@@ -244,22 +250,18 @@ func (server *Server) tlsServe(l net.Listener, tlsConfig *tls.Config, epoch int)
 			return err
 		}
 
-		server.accept(tls.Server(conn, tlsConfig), epoch)
+		server.accept(tls.Server(conn, tlsConfig))
 	}
 }
 
 // accept registers an accepted connection and starts to handle it.
-func (server *Server) accept(conn net.Conn, epoch int) {
+func (server *Server) accept(conn net.Conn) {
 	verifPoint("conn.accepted")
 	handlerConn := newConnWith(conn, nil)
-	// The connection is registered before anything else is done with it, so
-	// that Stop closes it whatever state it is in; a connection accepted by
-	// a run that Stop has already ended is refused.
-	if !server.addConnOf(epoch, handlerConn) {
-		handlerConn.Close()
-		verifPoint("conn.refused")
-		return
-	}
+	// The connection is registered by the accept loop before anything else
+	// is done with it, so that Stop - which waits for the accept loops -
+	// closes it whatever state it is in.
+	server.AddConn(handlerConn)
 	verifPoint("conn.registered")
 	go server.receive(handlerConn)
 }
